@@ -286,6 +286,15 @@ class Extractor:
                 return (n if bits_mode else n * 8), False
         if isinstance(node, ast.Name) and node.id in env and isinstance(env[node.id], tuple):
             return env[node.id][0], env[node.id][1]
+        if isinstance(node, ast.Attribute) and isinstance(node.value, ast.Name) and '@cls' in env:
+            # self.CRC_SIZE / Klass.CRC_SIZE: an integer constant of the class
+            c = env['@cls']
+            if node.value.id in ('self', 'cls', 'clz', c.name):
+                hit = self.idx.find_attr(c, node.attr)
+                if hit is not None and isinstance(hit[1], ast.Constant) and isinstance(hit[1].value, int) \
+                        and not isinstance(hit[1].value, bool):
+                    v = hit[1].value
+                    return (v if bits_mode else v * 8), False
         return VAR, False
 
     # ---- extraction --------------------------------------------------------
@@ -303,7 +312,7 @@ class _Ctx:
         self.side = side
         self.self_cls = self_cls
         self.depth = depth
-        self.env: dict[str, object] = {}          # name -> (bits, signed) for width variables
+        self.env: dict[str, object] = {'@cls': self_cls}     # name -> (bits, signed) for width variables
         self.aliases: dict[str, ast.AST] = {}     # name -> expression (guards)
         self.bits_vars: set[str] = set()          # names bound to bit-level readers/writers
         self.byte_vars: set[str] = set()
